@@ -84,7 +84,7 @@ func checkC18(c *Ctx) (string, []string) {
 			}
 			seen[key] = true
 			bad := ""
-			for n := int64(0); n <= 300; n++ {
+			for n := int64(0); n <= c.Deep(300, 20000); n++ {
 				got, ok := evalInt(cd.val, intEnv{lens: map[ssa.Value]int64{v: n}}, 0)
 				if !ok {
 					bad = "expression " + abbr(exprStr(cd.val, shapeOpts)) + " is not a pure function of len(v)"
@@ -96,7 +96,7 @@ func checkC18(c *Ctx) (string, []string) {
 				}
 			}
 			if bad == "" {
-				c.OK("C18.split-agreement", key, cd.pos, "= ⌈|v|/2⌉ for |v| = 0..300")
+				c.OK("C18.split-agreement", key, cd.pos, "= ⌈|v|/2⌉ for |v| = 0..%d", c.Deep(300, 20000))
 			} else {
 				c.Bad("C18.split-agreement", key, cd.pos, "%s", bad)
 			}
